@@ -170,6 +170,9 @@ where
     }
 
     pub fn is_used(&self, value: T) -> bool {
+        if value < self.lowest || self.highest < value {
+            return false;
+        }
         !self.pool.iter().any(|iv| iv.contains(value))
     }
 
